@@ -480,11 +480,11 @@ static inline int ubuf_block_resize(struct ubuf *ubuf, int offset, int new_size)
     struct ubuf_block *block = ubuf_block_from_ubuf(ubuf);
     if (offset < 0)
         offset += block->total_size;
-    if (unlikely(offset < 0))
+    if (unlikely(offset < 0 || (size_t)offset > block->total_size))
         return UBASE_ERR_INVALID;
 
     if (new_size != -1) {
-        if (new_size + offset > block->total_size)
+        if (new_size < 0 || (size_t)new_size > block->total_size - offset)
             return UBASE_ERR_INVALID;
         if (new_size + offset < block->total_size) {
             UBASE_RETURN(ubuf_block_truncate(ubuf, new_size + offset))
